@@ -650,6 +650,11 @@ def families():
         [S("T", [F("a", "u16"), F("b", "u16", ver=(0, 0), removed="AbiRemoved"), F("c", "u32")], repr="C")],
         [S("T", [F("a", "u16"), F("b", "u16", ver=(0, 0), removed="AbiRemoved"), F("c", "u32"), F("d", "u64", ver=(2, None))], repr="C")],
     ]))
+    # appending the 256th variant: indices still fit one byte
+    fams.append(("FamEnum256", [
+        [E("T", [Vr("V%d" % i) for i in range(254)] + [Vr("W", [F("x0", "u16")])])],
+        [E("T", [Vr("V%d" % i) for i in range(254)] + [Vr("W", [F("x0", "u16")]), Vr("X", [F("x0", "u8")], ver=(1, None))])],
+    ]))   # (a 257th variant would widen the tag: not a compatible step)
     # every field retired: the current struct is zero-sized in memory, its older versions are not empty on the wire
     fams.append(("FamAllRetired", [
         [S("T", [F("a", "u16"), F("b", "u8")])],
@@ -683,6 +688,14 @@ def families():
         [S("Inner", [F("x", "u16"), F("y", "u16"), F("w", "u32", ver=(1, None))], repr="C"), S("T", [F("i", "Inner"), F("l", "Vec<Inner>"), F("z", "u8")])],
         [S("Inner", [F("x", "u16"), F("y", "u16", ver=(0, 1), removed="AbiRemoved"), F("w", "u32", ver=(1, None))], repr="C"),
          S("T", [F("i", "Inner"), F("l", "Vec<Inner>"), F("o", "Option<Inner>", ver=(2, None)), F("z", "u8")])],
+    ]))
+    # an outer struct that never changed, without padding, around an inner struct that did: whether the outer value may be
+    # copied as one block depends on the version being written
+    fams.append(("FamNestedPacked", [
+        [S("Inner", [F("a", "u32"), F("g", "u32")], repr="C"), S("T", [F("id", "u32"), F("inner", "Inner"), F("tail", "u32")], repr="C")],
+        [S("Inner", [F("a", "u32"), F("g", "u32"), F("b", "u32", ver=(1, None))], repr="C"), S("T", [F("id", "u32"), F("inner", "Inner"), F("tail", "u32")], repr="C")],
+        [S("Inner", [F("a", "u32"), F("g", "u32", ver=(0, 1), removed="AbiRemoved"), F("b", "u32", ver=(1, None))], repr="C"),
+         S("T", [F("id", "u32"), F("inner", "Inner"), F("tail", "u32")], repr="C")],
     ]))
     return fams
 
@@ -893,7 +906,7 @@ def main():
         g.emit_item(t)
         g.register(t.name, t.name, t)
     plugins = {}   # version index -> families with an interface at that version
-    downgradable = {"FamAdd", "FamAbiRemove", "FamNested", "FamAddPacked", "FamAbiNested", "FamAllRetired"}
+    downgradable = {"FamAdd", "FamAbiRemove", "FamNested", "FamAddPacked", "FamAbiNested", "FamAllRetired", "FamNestedPacked"}
     for fam, versions in families():
         nver = len(versions)
         for k, items in enumerate(versions):
